@@ -18,6 +18,7 @@ with directives:
   //@   loop N:                         clauses inserted after the N-th loop header (1-based)
   //@   at_start:                       proof text inserted right after the body's opening brace
   //@   before `ANCHOR`:                proof text inserted before the unique occurrence of ANCHOR
+  //@                                   (`*ANCHOR` = every occurrence, `#K:ANCHOR` = the K-th occurrence)
   //@   after `ANCHOR`:                 ... after the end of the line containing ANCHOR
   //@   rewrite `OLD` => `NEW` [xK]     literal T6 rewrite, must match exactly K (default 1) times
   //@   strip_logs                      T3
@@ -449,6 +450,15 @@ def transform(ex, src):
                 res.append(k)
                 start = k + len(a)
             return res
+        mo = re.match(r"#(\d+):", anc)
+        if mo:  # `#K:TEXT` = the K-th occurrence (1-based) of TEXT
+            a, k, start, pos = anc[mo.end():], int(mo.group(1)), 0, -1
+            for _ in range(k):
+                pos = body.find(a, start)
+                if pos < 0:
+                    raise LostAnchor("%s: proof anchor %r has fewer than %d occurrences" % (ex.anchor, a, k))
+                start = pos + len(a)
+            return [pos]
         if body.count(anc) != 1:
             raise LostAnchor("%s: proof anchor %r occurs %d times" % (ex.anchor, anc, body.count(anc)))
         return [body.index(anc)]
